@@ -22,15 +22,15 @@ type Mismatch struct {
 
 // RunCfg describes how a history is executed and what is compared.
 type RunCfg struct {
-	FileBacked bool
-	CmpCB      bool // install KeyCompareForCollection so re-opened stores keep their comparators
-	CBSet      int  // callbacks.go bit set
+	FileBacked  bool
+	CmpCB       bool // install KeyCompareForCollection so re-opened stores keep their comparators
+	CBSet       int  // callbacks.go bit set
 	NoHeapCheck bool
-	DumpEvery  bool // compare the full contents of every handle after every step
-	ReopenDump bool // after every step following a flush, open a copy of the file image and compare with the last flushed reference (C02)
-	PostStep   func(w *World, i int, op Op, obs string) *Mismatch
-	PostRun    func(w *World) *Mismatch
-	OnWorld    func(w *World)
+	DumpEvery   bool // compare the full contents of every handle after every step
+	ReopenDump  bool // after every step following a flush, open a copy of the file image and compare with the last flushed reference (C02)
+	PostStep    func(w *World, i int, op Op, obs string) *Mismatch
+	PostRun     func(w *World) *Mismatch
+	OnWorld     func(w *World)
 }
 
 func newWorldFor(cfg RunCfg) (*World, map[string]int) {
@@ -114,6 +114,10 @@ func RunOps(cfg RunCfg, ops []Op) (*World, []string, *Mismatch) {
 		}
 		if !cfg.NoHeapCheck {
 			if hm := checkHeap(w); hm != nil {
+				hm.Step, hm.Op = i, op.String()
+				return w, obs, hm
+			}
+			if hm := checkRefs(w); hm != nil {
 				hm.Step, hm.Op = i, op.String()
 				return w, obs, hm
 			}
